@@ -94,7 +94,7 @@ def joinNonEmpty (l : List Str) : Str := joinWith [' '] (l.filter (· ≠ []))
 
 /-- `von_last[0][:1].islower()` -/
 def startsLower : List Str → Bool
-  | (c :: _) :: _ => isLowerA c
+  | (c :: _) :: _ => isLowerN c
   | _ => false
 
 /-- `Person._keeps_empty_first_part` (repair C02-1) -/
